@@ -10,6 +10,8 @@
      V, usesV           value of an environment variable; whether app's build consumes it
      dep                whether app depends on lib
      pv                 value of a variable that lib provides to app
+     cver               version of the build script fragment of the class "base" (inherited by both)
+     tpath              path of the tool that lib provides and app's build step uses (when dep)
    Workspace: per directory d in {src,build,dist} x Pkg
      ex[d], cont[d]     exists / abstract content
      res, inp, dst, vid Bob's persistent view (result hash, input hashes,
@@ -51,8 +53,15 @@ NODEP == <<"nodep">>
 ----------------------------------------------------------------------------
 (* ids and clean contents as structural terms *)
 
-Vars(p) == IF p = "app" THEN <<IF proj.usesV THEN proj.V ELSE 9, IF proj.dep THEN proj.pv ELSE 9>>
-           ELSE <<9, 9>>
+\* what the build step of p consumes besides its arguments: the variable V (if declared), the variable
+\* provided by lib, the script fragment of the class "base" inherited by both recipes, and (app only,
+\* when it depends on lib) the path of the tool that lib provides
+Vars(p) == IF p = "app" THEN <<IF proj.usesV THEN proj.V ELSE 9, IF proj.dep THEN proj.pv ELSE 9, proj.cver,
+                               IF proj.dep THEN proj.tpath ELSE 9>>
+           ELSE <<9, 9, proj.cver, 9>>
+WeakVars(p) == IF "DigestIgnoresVars" \in Weak THEN <<9, 9, 9, 9>>
+               ELSE IF "DigestIgnoresTool" \in Weak THEN [Vars(p) EXCEPT ![4] = 9]
+               ELSE Vars(p)
 VIdS(p) == IF p = "app" THEN <<"vs", "app", proj.src["app"]>> ELSE <<"vs", "lib", 0>>
 VIdBlib == <<"vb", proj.bver["lib"], Vars("lib"), VIdS("lib"), NODEP>>
 VIdDlib == <<"vd", proj.pver["lib"], VIdBlib>>
@@ -62,7 +71,7 @@ VIdD(p) == <<"vd", proj.pver[p], VIdB(p)>>
 
 Stored(d, real) == IF vid[d] = NONE THEN real ELSE vid[d]
 \* builder.py 1912-1937 __getIncrementalVariantId
-IncVIdB(p) == <<"vb", proj.bver[p], IF "DigestIgnoresVars" \in Weak THEN <<9, 9>> ELSE Vars(p), Stored(S(p), VIdS(p)),
+IncVIdB(p) == <<"vb", proj.bver[p], WeakVars(p), Stored(S(p), VIdS(p)),
                 IF p = "app" /\ proj.dep THEN Stored(D("lib"), VIdDlib) ELSE NODEP>>
 IncVIdD(p) == <<"vd", proj.pver[p], Stored(B(p), VIdB(p))>>
 
@@ -99,7 +108,7 @@ Ctr == UNCHANGED <<ninv, nkill, nfail, lastOk, quiet, ranInQuiet>>
 
 Init ==
   /\ proj = [bver |-> [p \in Pkg |-> 0], pver |-> [p \in Pkg |-> 0], src |-> [p \in Pkg |-> 0],
-             V |-> 0, usesV |-> TRUE, dep |-> TRUE, pv |-> 0]
+             V |-> 0, usesV |-> TRUE, dep |-> TRUE, pv |-> 0, cver |-> 0, tpath |-> 0]
   /\ ex = [d \in Dirs |-> FALSE] /\ cont = [d \in Dirs |-> EMPTY]
   /\ res = [d \in Dirs |-> NONE] /\ inp = [d \in Dirs |-> NONE]
   /\ dst = [d \in Dirs |-> NONE] /\ vid = [d \in Dirs |-> NONE]
@@ -135,6 +144,8 @@ Edit ==
      \/ proj' = [proj EXCEPT !.usesV = ~@] /\ Hist([a |-> "Edit", knob |-> "usesV"])
      \/ proj' = [proj EXCEPT !.dep = ~@] /\ Hist([a |-> "Edit", knob |-> "dep"])
      \/ proj' = [proj EXCEPT !.pv = 1 - @] /\ Hist([a |-> "Edit", knob |-> "pv"])
+     \/ proj' = [proj EXCEPT !.cver = 1 - @] /\ Hist([a |-> "Edit", knob |-> "cver"])
+     \/ proj' = [proj EXCEPT !.tpath = 1 - @] /\ Hist([a |-> "Edit", knob |-> "tpath"])
   /\ nedit' = nedit + 1 /\ quiet' = FALSE /\ lastOk' = FALSE
   /\ UNCHANGED <<ex, cont, res, inp, dst, vid, mode, todo, pc, created, ninv, nkill, nfail, ranInQuiet>>
 
